@@ -74,7 +74,24 @@ type HarnessResult struct {
 }
 
 // overlayFor maps harness files of /verif/harness/<rel>/ into /repo/<rel>/.
-func overlayFor(pkgRel string) (map[string][]byte, string, error) {
+func overlayFor(pkgRel string, extra ...string) (map[string][]byte, string, error) {
+	ov, name, err := overlayFor1(pkgRel)
+	if err != nil {
+		return nil, "", err
+	}
+	for _, x := range extra {
+		ox, _, err := overlayFor1(x)
+		if err != nil {
+			return nil, "", err
+		}
+		for k, v := range ox {
+			ov[k] = v
+		}
+	}
+	return ov, name, nil
+}
+
+func overlayFor1(pkgRel string) (map[string][]byte, string, error) {
 	ov := map[string][]byte{}
 	dir := filepath.Join(verifRoot, "harness", pkgRel)
 	ents, err := os.ReadDir(dir)
@@ -108,8 +125,8 @@ func overlayFor(pkgRel string) (map[string][]byte, string, error) {
 	return ov, pkgName, nil
 }
 
-func loadProgram(pkgRel string) (*ssa.Program, *ssa.Package, error) {
-	ov, _, err := overlayFor(pkgRel)
+func loadProgram(pkgRel string, extra ...string) (*ssa.Program, *ssa.Package, error) {
+	ov, _, err := overlayFor(pkgRel, extra...)
 	if err != nil {
 		return nil, nil, err
 	}
@@ -147,7 +164,7 @@ func loadProgram(pkgRel string) (*ssa.Program, *ssa.Package, error) {
 func runHarness(spec *HarnessSpec) (res *HarnessResult) {
 	res = &HarnessResult{Name: spec.Name, Pkg: spec.Pkg, Solver: spec.Solver, LoopBound: spec.LoopBound}
 	t0 := time.Now()
-	prog, pkg, err := loadProgram(spec.Pkg)
+	prog, pkg, err := loadProgram(spec.Pkg, spec.ExtraPkgs...)
 	res.LoadS = time.Since(t0).Seconds()
 	if err != nil {
 		res.Status, res.Error = "unsupported", err.Error()
